@@ -109,8 +109,9 @@ func ruleTermsShapeOps(c *Ctx, prop string) {
 		"Transpose":  "Transpose(P1[0],.perm)",
 		"Softmax":    "SoftMax(P1[0],AXIS)",
 		"LogSoftmax": "LogSoftMax(P1[0],AXIS)",
+		"Expand":     "MultidirectionalBroadcast(P1[0],TARGET)",
 	}
-	scope := map[string][]string{"C08": {"Transpose"}, "C16": {"Transpose"}, "C09": {"Softmax", "LogSoftmax"}}
+	scope := map[string][]string{"C08": {"Transpose", "Expand"}, "C16": {"Transpose"}, "C09": {"Softmax", "LogSoftmax"}}
 	for _, name := range scope[prop] {
 		oi := c.opByName(name)
 		key := "R7:delegates:" + name
@@ -128,6 +129,10 @@ func ruleTermsShapeOps(c *Ctx, prop string) {
 				// the axis operand: the attribute, possibly normalised: phi(.axis|(.axis+len(Shape(P1[0])))) or .axis
 				pre := strings.Split(w, "AXIS")[0]
 				ok = strings.HasPrefix(g, pre) && strings.HasSuffix(g, ")") && strings.Contains(g[len(pre):], ".axis") && !strings.Contains(g[len(pre):], "Transpose")
+			} else if strings.Contains(w, "TARGET") {
+				// the target operand: a fresh tensor built from the requested shape (inputs[1]); first result of the helper
+				pre := strings.Split(w, "TARGET")[0]
+				ok = strings.HasPrefix(g, pre+"New(") && strings.HasSuffix(g, ")") && strings.Contains(g[len(pre):], "P1[1]") && !strings.HasSuffix(g, "#1")
 			} else {
 				ok = g == w
 			}
@@ -416,6 +421,147 @@ func (c *Ctx) atMost(h, a ssa.Value, depth int) bool {
 				return true
 			}
 		}
+	}
+	return false
+}
+
+// ---- R9d: the reduction receives every requested axis --------------------------------------------
+//
+// ReduceMax/ReduceMin hand gorgonia a list with exactly one (normalised) entry per requested axis: the
+// list is the attribute itself, or make(len(attr)) filled at the range index of a loop over the
+// attribute, or an append that runs in every iteration. A filtered list (axes dropped on a condition)
+// changes which axes disappear from the output shape, and an empty list means "all axes" to gorgonia.
+func ruleAxesPreserved(c *Ctx, prop string) {
+	for _, name := range []string{"ReduceMax", "ReduceMin"} {
+		oi := c.opByName(name)
+		key := "R9d:" + name + ":axes-preserved"
+		if oi == nil {
+			c.undecided("R9", key, "", "operator not found")
+			continue
+		}
+		apply := oi.methods["Apply"]
+		recv := apply.Params[0]
+		isAxesLoad := func(v ssa.Value) bool {
+			u, ok := v.(*ssa.UnOp)
+			if !ok || u.Op != token.MUL {
+				return false
+			}
+			fa, ok := u.X.(*ssa.FieldAddr)
+			if !ok || fa.X != ssa.Value(recv) {
+				return false
+			}
+			_, st := structOfPtr(fa.X.Type())
+			return st != nil && st.Field(fa.Field).Name() == "axes"
+		}
+		var red *ssa.Call
+		for _, b := range apply.Blocks {
+			for _, in := range b.Instrs {
+				if cl, ok := in.(*ssa.Call); ok {
+					if nm, _ := tensorMethod(cl); nm == "Max" || nm == "Min" {
+						red = cl
+					}
+				}
+			}
+		}
+		if red == nil {
+			c.undecided("R9", key, c.pos(apply.Pos()), name+".Apply no longer calls gorgonia's Max/Min: unrecognised factoring")
+			continue
+		}
+		args := red.Common().Args
+		s := args[len(args)-1]
+		ok, why := false, "the axes list handed to the reduction is not built with one entry per requested axis"
+		switch x := s.(type) {
+		case *ssa.UnOp:
+			ok = isAxesLoad(x)
+		case *ssa.MakeSlice:
+			lenOK := false
+			if cl, isCall := x.Len.(*ssa.Call); isCall {
+				if bi, isB := cl.Common().Value.(*ssa.Builtin); isB && bi.Name() == "len" && isAxesLoad(cl.Common().Args[0]) {
+					lenOK = true
+				}
+			}
+			if !lenOK {
+				why = "the axes list is not made with len(requested axes) entries"
+				break
+			}
+			nStores := 0
+			ok = true
+			for _, r := range *x.Referrers() {
+				ia, isIA := r.(*ssa.IndexAddr)
+				if !isIA {
+					continue
+				}
+				for _, rr := range *ia.Referrers() {
+					st, isSt := rr.(*ssa.Store)
+					if !isSt || st.Addr != ssa.Value(ia) {
+						continue
+					}
+					nStores++
+					// the same index reads the attribute in this iteration, and the store runs in every iteration
+					readsAttr := false
+					for _, r2 := range *ia.Index.Referrers() {
+						if ia2, isIA2 := r2.(*ssa.IndexAddr); isIA2 && ia2 != ia && isAxesLoad(ia2.X) {
+							readsAttr = true
+						}
+					}
+					if !readsAttr {
+						ok, why = false, "an entry is stored at an index that does not walk the requested axes"
+					} else if !runsEveryIteration(st.Block()) {
+						ok, why = false, "the entry for a requested axis is stored only on a condition: axes are dropped from the list (an empty list means all axes to gorgonia)"
+					}
+				}
+			}
+			if nStores == 0 {
+				ok, why = false, "the axes list is never filled"
+			}
+		case *ssa.Phi:
+			// s = phi(make(0, n), append(s, x)) with the append running in every iteration
+			ok = true
+			nApp := 0
+			for _, e := range x.Edges {
+				switch y := e.(type) {
+				case *ssa.MakeSlice:
+				case *ssa.Call:
+					bi, isB := y.Common().Value.(*ssa.Builtin)
+					if !isB || bi.Name() != "append" || y.Common().Args[0] != ssa.Value(x) {
+						ok = false
+					} else {
+						nApp++
+						if !runsEveryIteration(y.Block()) {
+							ok, why = false, "the append of a requested axis runs only on a condition: axes are dropped from the list (an empty list means all axes to gorgonia)"
+						}
+					}
+				default:
+					ok = false
+				}
+			}
+			if nApp == 0 {
+				ok = false
+			}
+		}
+		c.decide(ok, "R9", key, c.pos(red.Pos()), "one list entry per requested axis reaches gorgonia's reduction", why)
+	}
+}
+
+// runsEveryIteration: block b lies in a loop and dominates every latch of its innermost loop.
+func runsEveryIteration(b *ssa.BasicBlock) bool {
+	// innermost loop header: the closest dominator h with a predecessor dominated by h whose loop contains b
+	for h := b; h != nil; h = h.Idom() {
+		var latches []*ssa.BasicBlock
+		for _, p := range h.Preds {
+			if h.Dominates(p) {
+				latches = append(latches, p)
+			}
+		}
+		if len(latches) == 0 || !loopBlocks(h)[b] {
+			continue
+		}
+		for _, l := range latches {
+			if !b.Dominates(l) {
+				return false
+			}
+		}
+		return true
 	}
 	return false
 }
